@@ -105,18 +105,41 @@ SOURCE_TIES = {
               "IsotopicConstants get/update, isotopic_coefficients, from_element, phi values, probability_vector, center_mass_vector and the peak-building "
               "tail with the 1e-10 rule, charge conversion and sort) translated from the current source equal the corresponding definitions of Brain.v, "
               "panics included, under stated integer-width side conditions (tools/gen_brain.py -> coq/gen/BrainGen.v; proofs/BrainTie.v)"),
+    "props": ("gen_props.py", "proofs/PropsTie.vo",
+              "everything the macros of src/props.rs generate (impl_arithmetic! at the list, map and enum types: Add/Sub by reference and by value, "
+              "AddAssign/SubAssign on T and &mut T, Mul/MulAssign by i32, Neg by value and by reference; impl_from!; the ChemicalCompositionLike trait "
+              "impls; IntoIterator/FromIterator) and the enum wrapper src/abstract_composition.rs (arm dispatch of every method, into_map / into_vec, "
+              "From, eq, inc_str), 123 functions read from the current source with the macro bodies expanded at their invocations, equal "
+              "CompOps.apply at the matching operation and family (tools/gen_props.py -> coq/gen/PropsGen.v; proofs/PropsTie.v)"),
+    "element": ("gen_element.py", "proofs/ElementTie.vo",
+                "the code that consumes the table: Element::mass / calc_min_neutron_shift / calc_max_neutron_shift (for every HashMap iteration "
+                "order) / isotope_by_shift (i16 arithmetic and the `as u16` wrap explicit) / index_isotopes, PeriodicTable::new / add / get / index, "
+                "Isotope::eq / partial_cmp translated from the current src/element.rs equal TableModel.v's calc_min / calc_max, the index step of "
+                "build_elem, tbl_insert, tbl_get / tbl_find; and ChemicalElements::make_periodic_table / new / parse_formula / parse_element of "
+                "src/helper.rs (with ChemicalComposition::parse_with / parse / from_str) hand each parser the table the model says: the constants of "
+                "`new` the global table, parse_formula / parse_element the struct's own (18 functions; tools/gen_element.py -> coq/gen/ElementGen.v; "
+                "proofs/ElementTie.v)"),
 }
 
 
 # Tie lemmas whose function lies outside what a property speaks about: a mismatch confined to them is recorded in the evidence
 # but does not make that property's check report (the property's own theorems do not go through those functions).
+_ELEM_NOT_PARSING = r"^(mass|calc_min_neutron_shift|calc_max_neutron_shift|isotope_by_shift|index_isotopes|isotope_eq|isotope_partial_cmp)$"
 IRRELEVANT_TIES = {
+    # the parsers go through helper.rs / PeriodicTable::get only; how an element's shifts are indexed is C12's business
+    "C01": {"element": _ELEM_NOT_PARSING}, "C05": {"element": _ELEM_NOT_PARSING}, "C07": {"element": _ELEM_NOT_PARSING}, "C16": {"element": _ELEM_NOT_PARSING},
+    # the table's consistency does not depend on which table the helper's parsers are handed, nor on Isotope's approximate equality
+    "C12": {"element": r"^(ce_parse_formula|ce_parse_element|cc_parse_with|cc_from_str|cc_parse|isotope_eq|isotope_partial_cmp)$"},
     # C04 is about counts only: the mass computation and its cache are C02's / C06's business
-    "C04": {"comp": r"^[vm]_(calc_mass|mass|fmass|has_mass_cached)$"},
+    "C04": {"comp": r"^[vm]_(calc_mass|mass|fmass|has_mass_cached)$", "props": r"^(l[vma]|a|r)_(calc_mass|mass|fmass|has_mass_cached)$"},
 }
 
 
-TIES_MODE = {"gen_peak.py", "gen_espec.py", "gen_formula.py", "gen_comp.py", "gen_render.py", "gen_cbind.py", "gen_brain.py"}
+# translators whose --ties mode has a --field variant (tie re-proved under the ordered-field laws only)
+FIELD_MODE = set()
+
+
+TIES_MODE = {"gen_peak.py", "gen_espec.py", "gen_formula.py", "gen_comp.py", "gen_render.py", "gen_cbind.py", "gen_brain.py", "gen_element.py", "gen_props.py"}
 
 
 def source_tie(run, parts=("mz",)):
@@ -125,6 +148,9 @@ def source_tie(run, parts=("mz",)):
 
     Three outcomes per part:
       established  -- translated and every tie lemma re-proved;
+      field-level  -- some tie lemma no longer holds for every numeric interpretation (so not bit for bit for doubles) but is
+                      re-proved over every ordered field: the code still is the model in exact arithmetic, which is what the
+                      algebraic theorems speak about; treated like `unavailable` (quiet, differential search 5x deeper);
       unavailable  -- the translator refused the file, or skipped functions that are now written outside its subset (a harmless
                       rewrite does that): no information; the differential correspondence remains the tie (searched 5x deeper);
       mismatch     -- the source WAS translated but a tie lemma no longer holds of it: the code no longer is the model.  The
@@ -146,11 +172,23 @@ def source_tie(run, parts=("mz",)):
                     rc3, out3, _ = sh([sys.executable, os.path.join(VERIF, "tools", script), "--ties"], cwd=VERIF, timeout=900)
                     failed = re.findall(r"^tie (\S+): FAILED", out3, re.M)
                     skipped = re.findall(r"^tie (\S+): SKIPPED", out3, re.M)
+                    field_ok = []
+                    if failed and script in FIELD_MODE:
+                        # second chance: do the failed ties still hold over every ORDERED FIELD (exact arithmetic)?  A floating-point
+                        # rewrite that is an identity of fields (operands commuted, fma split, division by t vs multiplication by 1/t)
+                        # leaves the code equal to the model for every ordered-field interpretation, which is what the algebraic
+                        # theorems are stated about; bit-level agreement with the model is then left to the differential run
+                        rc4, out4, _ = sh([sys.executable, os.path.join(VERIF, "tools", script), "--ties", "--field", "--only=" + ",".join(failed)],
+                                          cwd=VERIF, timeout=900)
+                        field_ok = [f for f in re.findall(r"^tie (\S+): OK", out4, re.M) if f in failed]
+                        failed = [f for f in failed if f not in field_ok]
                     irr = IRRELEVANT_TIES.get(run.prop, {}).get(k)
                     outside = [f for f in failed if irr and re.match(irr, f)]
                     failed = [f for f in failed if f not in outside]
-                    status = "mismatch" if failed else "unavailable"
+                    status = "mismatch" if failed else ("field-level" if field_ok else "unavailable")
                     detail = ("tie lemmas that no longer hold: %s" % ", ".join(failed)) if failed else ("skipped (outside the subset): %s" % ", ".join(skipped))
+                    if field_ok:
+                        detail += "; ties that no longer hold bit for bit but are re-proved over every ordered field: %s" % ", ".join(field_ok)
                     if outside:
                         detail += "; tie lemmas that no longer hold but concern functions outside %s: %s" % (run.prop, ", ".join(outside))
                 else:
